@@ -152,7 +152,7 @@ class Design:
       for st in s.stmts[h]:
         if st[0] == 'conn': out.append((h, st))
         elif st[0] == 'iconn':
-          out += [(h, ('conn', whole(a), whole(b))) for a, b in zip(st[1].leaves, st[2].leaves)]
+          out += [(h, ('conn', a, b)) for a, b in iconn_pairs(st)]
     return out
   def blocks(s):
     return [(h, st) for h in sorted(s.stmts) for st in s.stmts[h] if st[0] == 'blk']
@@ -253,8 +253,8 @@ class Design:
         sw = (flips or {}).get((h, k), (False, 0))[0]
         if t[0] == 'iconn':
           # connect( interface, interface ): by name, i.e. the member-wise pairs
-          for x, y in zip(t[1].leaves, t[2].leaves):
-            E.append((y.root, x.root, h) if sw else (x.root, y.root, h))
+          for x, y in iconn_pairs(t):
+            E.append((y.full, x.full, h) if sw else (x.full, y.full, h))
           continue
         if t[0] != 'conn': continue
         a, b = t[1].full, t[2].full
@@ -266,6 +266,12 @@ class Design:
         for n in ('clk', 'reset'):
           E.append((Sig(c.path, n, 'in', ('b', 1)).root, Sig(i.path, n, 'in', ('b', 1)).root, i.path))
     return E
+
+def iconn_pairs(t):
+  """the signal-level connections an interface-level connect stands for: ('iconn', A, B) = by name, member-wise;
+  ('iconn', A, B, pairs) = what the interfaces' own connect() hook does (end points / constants)"""
+  if len(t) > 3: return list(t[3])
+  return [(whole(a), whole(b)) for a, b in zip(t[1].leaves, t[2].leaves)]
 
 class IfcRef:
   """one interface instance of a component: expr is 'recv' or 'recv[1]'; leaves = its member signals in a fixed order"""
@@ -306,6 +312,43 @@ def gen_ifc_classes(rng, dname):
       lv += leaves(inner, f'{n}.' if k is None else f'{n}[{k}].')
   src = cls_src(f'Inner_{dname}', inner, []) + cls_src(f'Bus_{dname}', outer, nested)
   return src, lv
+
+def add_hook_interfaces(rng, d):
+  """two interface classes that bring their own connect( s, other, parent ) hook: the source side's hook only knows a legacy
+  sink class and declines (returns False) for anything else; the sink side's hook accepts a source and does more than a
+  by-name connection would: a differently named field, element-wise list members, and a constant tie-off of one of its
+  inputs.  A producer child drives the source interface, the top connects it to a consumer child's sink interface
+  (which side is written first varies per variant).  Returns (signals driven, block statement to add to the producer)."""
+  top = d.insts[()]
+  if not top.children: return []
+  P = rng.choice(top.children); C = rng.choice(top.children)
+  w = rng.choice([4, 8, 8])
+  dname = 'msg' if rng.random() < 0.5 else 'data'
+  naux = rng.choice([0, 2, 3])
+  tie = rng.choice([0, 1])
+  n = d.name
+  aux_decl = lambda Pn: f'    s.aux = [ {Pn}( Bits4 ) for _ in range({naux}) ]\n' if naux else ''
+  src = (f'class Legacy_{n}( Interface ):\n  def construct( s ):\n    s.payload = InPort( Bits{w} )\n'
+         f'class Src_{n}( Interface ):\n  def construct( s ):\n    s.msg = OutPort( Bits{w} )\n    s.en = OutPort( Bits1 )\n' + aux_decl('OutPort') +
+         f'  def connect( s, other, parent ):\n    if isinstance( other, Legacy_{n} ):\n      connect( s.msg, other.payload )\n      return True\n    return False\n'
+         f'class Sink_{n}( Interface ):\n  def construct( s ):\n    s.{dname} = InPort( Bits{w} )\n    s.en = InPort( Bits1 )\n    s.last = InPort( Bits1 )\n' + aux_decl('InPort') +
+         f'  def connect( s, other, parent ):\n    if isinstance( other, Src_{n} ):\n      connect( other.msg, s.{dname} )\n      connect( s.en, other.en )\n'
+         + (f'      for i in range({naux}): connect( other.aux[i], s.aux[i] )\n' if naux else '') +
+         f'      connect( s.last, {tie} )\n      return True\n    return False\n')
+  d.extra_src = list(getattr(d, 'extra_src', [])) + [src]
+  mk = lambda i, base, kind, names: [Sig(i.path, f'{base}.{nm}', kind, T, decl=False) for nm, T in names]
+  smem = [('msg', ('b', w)), ('en', ('b', 1))] + [(f'aux[{k}]', ('b', 4)) for k in range(naux)]
+  kmem = [(dname, ('b', w)), ('en', ('b', 1))] + [(f'aux[{k}]', ('b', 4)) for k in range(naux)] + [('last', ('b', 1))]
+  S = mk(P, 'hout', 'out', smem); K = mk(C, 'hin', 'in', kmem)
+  P.sigs += S; C.sigs += K
+  P.ifc_decls.append(f's.hout = Src_{n}()'); C.ifc_decls.append(f's.hin = Sink_{n}()')
+  last = whole(K[-1])
+  pairs = [(whole(a), whole(b)) for a, b in zip(S, K[:-1])] + [(last, ConstEP(('b', 1), tie, (), tied=last))]
+  d.stmts[()].append(('iconn', IfcRef(P.path, 'hout', S), IfcRef(C.path, 'hin', K), pairs))
+  lines = [f's.hout.{nm} @= {rng.randrange(0, 1 << min(T[1], 6))}' for nm, T in smem]
+  d.stmts[P.path].append(('blk', 'ubhook', False, lines, [(whole(x), '@=') for x in S], []))
+  d.features.add('interface-connect-hooks')
+  return S + K
 
 def add_interfaces(rng, d):
   """gives the top and a chain of its descendants receive/send interfaces (scalar or lists of 2) and connects them at the
